@@ -172,11 +172,24 @@ func (t *TypeState) NonNil(v ssa.Value, at ssa.Instruction) (bool, string) {
 	if t == nil {
 		return false, ""
 	}
-	kind, rule := callbackOf(at.Parent())
+	kind, _ := callbackOf(at.Parent())
 	if kind == "" {
 		return t.nonNilInHelper(v, at)
 	}
-	path := e5path.AccessPath(v)
+	_, isLoad := v.(*ssa.UnOp)
+	return t.NonNilPath(e5path.AccessPath(v), isLoad, at)
+}
+
+// NonNilPath: the same facts for an expression given by its access path (used when a helper's parameter is
+// judged at its call sites, where no SSA value for the expression need exist).
+func (t *TypeState) NonNilPath(path string, isLoad bool, at ssa.Instruction) (bool, string) {
+	if t == nil {
+		return false, ""
+	}
+	kind, rule := callbackOf(at.Parent())
+	if kind == "" {
+		return false, ""
+	}
 	// accessor on ctx
 	if strings.HasPrefix(path, "ctx.") && strings.HasSuffix(path, "()") && strings.Count(path, "()") == 1 {
 		acc := strings.TrimSuffix(strings.TrimPrefix(path, "ctx."), "()")
@@ -193,7 +206,7 @@ func (t *TypeState) NonNil(v ssa.Value, at ssa.Instruction) (bool, string) {
 	if !strings.HasPrefix(path, "l.") {
 		return false, ""
 	}
-	if _, isLoad := v.(*ssa.UnOp); !isLoad {
+	if !isLoad {
 		return false, ""
 	}
 	// intra-callback flow first needs the state at entry
